@@ -1096,10 +1096,17 @@ static std::string render_spelled(const SpellTable& t, const std::vector<ref::To
 {
     static const char* seps[] = {" ", "  ", "\n", " \n ", "\t", "\r\n"};
     std::string s; if (rng.chance(1, 4)) s += seps[rng.below(6)];
+    // C09's programs: now and then ONE lexeme of a regex term is 64 KiB long or longer (lengths around the 16-bit boundary)
+    bool giant_left = getenv("EMIT_GIANT_LEXEME") && rng.chance(1, 12);
     for (auto& tk : toks)
     {
         const Spelling& sp = t.sp[size_t(tk.term)];
-        if (sp.kind == 'r' || sp.kind == 'R' || sp.kind == 'T') { s += sp.text[0]; int nd = 1 + int(rng.below(3)); for (int k = 0; k < nd; ++k) s += char('0' + rng.below(10)); }
+        if (sp.kind == 'r' || sp.kind == 'R' || sp.kind == 'T')
+        {
+            s += sp.text[0]; int nd = 1 + int(rng.below(3));
+            if (giant_left && rng.chance(1, 2)) { giant_left = false; static const int lens[] = {65534, 65535, 65536, 70000}; nd = lens[rng.below(4)]; }
+            for (int k = 0; k < nd; ++k) s += char('0' + rng.below(10));
+        }
         else s += sp.text;
         s += seps[rng.below(6)];
     }
@@ -1151,7 +1158,7 @@ static int emit_cases(const eng::Args& a)
         auto tname = [&](int t) -> std::string { if (t == g.eof()) return "<eof>"; if (t == g.err()) return "<error_recovery_token>"; return spelled ? spell.sp[size_t(t)].name : g.tname(t); };
         if (spelled)
         {
-            std::vector<gg::Input> re;
+            std::vector<gg::Input> re; int ngiant = 0;
             for (auto& in : keep)
             {
                 gg::Lexed L0 = gg::lex_ref(in.text, in.skip_ws, in.skip_nl);
@@ -1160,6 +1167,7 @@ static int emit_cases(const eng::Args& a)
                 if (L0.lex_error) n2.text += "@ ";
                 if (!n2.skip_nl) { for (auto& chx : n2.text) if (chx == '\n' || chx == '\r') chx = ' '; }
                 if (n2.text.size() <= 60) re.push_back(n2);
+                else if (n2.text.size() > 65000 && ngiant < 2) { ++ngiant; re.push_back(n2); }       // at most two texts with a giant lexeme per grammar
             }
             keep = re;
         }
